@@ -48,6 +48,7 @@ def run_path(hname, params, prefix, validate=False):
     I = _G['I']
     h = HARNESSES[hname]
     I.start_path(prefix)
+    I.json_text = False   # per-path switch of the serde stub (set by the C20 harness); must not leak into the next job of this worker
     ctx = SymCtx(I)
     rec = dict(status='ok')
     try:
